@@ -30,7 +30,7 @@ META = {
     },
 }
 CASES = {'quick': 900, 'thorough': 60000}
-SECONDS = {'quick': 60, 'thorough': 1500}
+SECONDS = {'quick': 60, 'thorough': 600}
 
 
 def classify_language(lang, res):
